@@ -495,6 +495,11 @@ static ASMJIT_FAVOR_SIZE Error validate(InstDB::Mode mode, const BaseInst& inst,
           reg_mask = 0;
         }
 
+        // MOVABS only has the moffs form - an absolute address without base and index registers.
+        if (ASMJIT_UNLIKELY(inst_info._encoding == InstDB::kEncodingX86Movabs && (base_type != RegType::kNone || index_type != RegType::kNone))) {
+          return make_error(Error::kInvalidAddress);
+        }
+
         if ((base_type == RegType::kGp16 || index_type == RegType::kGp16) && !m.is_reg_home()) {
           if (ASMJIT_UNLIKELY(!is_valid_address_16(m))) {
             return make_error(Error::kInvalidAddress);
@@ -702,6 +707,15 @@ Next:
     if (!inst_signature_matched) {
       return make_error(global_imm_out_of_range ? Error::kInvalidImmediate : Error::kInvalidInstruction);
     }
+  }
+
+  // Validate Encoding Specific Restrictions
+  // ---------------------------------------
+
+  // Instructions of X86Op encoding only have implicit operands - an explicit immediate belongs to a form that is not
+  // implemented by the assembler (rdmsr|wrmsrns r64, imm32).
+  if (ASMJIT_UNLIKELY(inst_info._encoding == InstDB::kEncodingX86Op && Support::test(combined_op_flags, InstDB::OpFlags::kImmMask))) {
+    return make_error(Error::kInvalidInstruction);
   }
 
   // Validate Mask Register Pair
